@@ -78,9 +78,24 @@ Inductive kind :=
 
 Record ccell := mkCell { c_face : face; c_kind : kind }.
 
-(* rendering context: glyph support and the char-width oracle (unicode-width), given as
-   a table of the characters whose width is not 1 *)
-Record rctx := mkCtx { has_glyphs : bool; cw_tab : list (N * nat) }.
+(* a compiled automaton as dumped from the crate: start state, transitions as
+   (from, lowest symbol, highest symbol, to), per state (accepting, terminal, first tag) *)
+Record dfa := mkDfa {
+  d_start : nat;
+  d_trans : list (nat * N * N * nat);
+  d_info : list (bool * bool * nat) }.
+
+Definition dfa0 : dfa := mkDfa 0 [] [].
+
+(* rendering context: glyph support; the char-width oracle (unicode-width), given as a table
+   of the characters whose width is not 1; for the escape-sequence writer the automaton of
+   TTYCommandDecoder and the effect of each SGR sequence on a face (FaceModify::apply after
+   sgr_face, the subject of C06), given as a table ((sequence bytes, face before), face after) *)
+Record rctx := mkCtx {
+  has_glyphs : bool;
+  cw_tab : list (N * nat);
+  cmd_dfa : dfa;
+  sgr_tab : list (list N * face * face) }.
 
 Fixpoint cw_lookup (tab : list (N * nat)) (ch : N) : nat :=
   match tab with
